@@ -1,6 +1,7 @@
 package harness
 
 import (
+	"os"
 	"context"
 	"encoding/xml"
 	"errors"
@@ -547,7 +548,19 @@ func runC06(rc *RC) {
 		}
 		if c.err != nil {
 			if c.ctxErr == nil || !errors.Is(c.err, c.ctxErr) {
-				rc.Failf("C06.c1", "error-not-ctx:"+c.kind, "%s id=%s returned %v but its context error is %v", c.kind, c.id, c.err, c.ctxErr)
+				// a specific history gets a signature of its own: the call came back with the connection's deadline error
+				// and a context of this or of an earlier transmit call had ended by then. The library enforces a context
+				// on a write by setting the connection's write deadline into the past and clearing it again; a write that
+				// falls between the two statements fails, and the session's buffered encoder keeps that error for good.
+				ended := c.ctxErr != nil
+				for _, d := range calls {
+					ended = ended || (d.done && d.ctxErr != nil && errors.Is(d.err, os.ErrDeadlineExceeded))
+				}
+				if errors.Is(c.err, os.ErrDeadlineExceeded) && ended {
+					rc.Failf("C06.c1", "write-deadline-error-after-ended-context", "%s id=%s returned %v (its context error: %v): a write fell into the window in which the write deadline that enforces an ended context was set and not yet cleared - or came after such a write, whose error the session's encoder keeps", c.kind, c.id, c.err, c.ctxErr)
+				} else {
+					rc.Failf("C06.c1", "error-not-ctx:"+c.kind, "%s id=%s returned %v but its context error is %v", c.kind, c.id, c.err, c.ctxErr)
+				}
 			}
 			continue
 		}
@@ -787,6 +800,14 @@ func runC06Receipts(rc *RC) {
 			if c.ackStep < 0 || c.ackStep > c.retStep {
 				rc.Failf("C06.c1", "receipt-not-sent:receipts.SendMessageElement", "SendMessageElement id=%s returned nil at step %d but no receipt for that id had been sent (first at %d)", c.id, c.retStep, c.ackStep)
 			}
+		} else if ended := func() bool {
+			e := c.ctxErr != nil
+			for _, d := range calls {
+				e = e || (d.done && d.ctxErr != nil && errors.Is(d.err, os.ErrDeadlineExceeded))
+			}
+			return e
+		}(); (c.ctxErr == nil || !errors.Is(c.err, c.ctxErr)) && errors.Is(c.err, os.ErrDeadlineExceeded) && ended {
+			rc.Failf("C06.c1", "write-deadline-error-after-ended-context", "receipts.SendMessageElement id=%s returned %v (its context error: %v): a write fell into the window in which the write deadline that enforces an ended context was set and not yet cleared - or came after such a write, whose error the session's encoder keeps", c.id, c.err, c.ctxErr)
 		} else if c.ctxErr == nil || !errors.Is(c.err, c.ctxErr) {
 			rc.Failf("C06.c1", "error-not-ctx:receipts.SendMessageElement", "SendMessageElement id=%s returned %v but its context error is %v", c.id, c.err, c.ctxErr)
 		} else if u, ok := unhandledAt[c.id]; ok && c.acks == 1 && u.step < c.retStep && u.at < c.endAt {
